@@ -41,6 +41,12 @@ std::atomic<verif::sink_t>& verif::sink()
     return the_sink;
 }
 
+std::atomic<verif::object_sink_t>& verif::object_sink()
+{
+    static std::atomic<object_sink_t> the_sink{nullptr};
+    return the_sink;
+}
+
 std::atomic<uint64_t>& verif::sequence()
 {
     static std::atomic<uint64_t> the_sequence{0};
